@@ -117,6 +117,7 @@ StepClauses(t, pre, ev) ==
      \cup Cl("Step_OpenList", ev.kind # "get_open_orders" \/ (ev.openList = so.openList /\ ev.perPairOk))
   \* ---- property predicates on the implementation's own state and step ---------------------------------
      \cup Cl("Obs_TotalIsAvailPlusHoldMinusBorrowed", ob.totalOk)
+     \cup Cl("Obs_DecimalContextUntouched", ob.ctxOk)      \* process-wide arithmetic (decimal context) as the exchange found it
      \cup Cl("Obs_Listings", ob.listingOk)
      \cup Cl("Obs_LoanListings", ob.loanListingOk)
      \cup Cl("Obs_Grid", ob.offgrid = <<>>)
@@ -134,7 +135,8 @@ StepClauses(t, pre, ev) ==
            \cup Cl("Inv_C09_TotalFee", P(t)!Inv_C09_TotalFee(I))
            \cup Cl("Inv_C11_OpenUnpaid", P(t)!Inv_C11_OpenUnpaid(I))
            \cup Cl("Inv_C10_NoLendingNoLoans", Traces[t].cfg.lendMode # "none" \/ Len(I.loans) = 0)
-           \cup Cl("Act_C07_RejectedUnchanged", P(t)!Rejected_Unchanged(pre, I, c))
+           \* (obsBroken: after a REJECTED request the account could no longer be listed the way it could just before)
+           \cup Cl("Act_C07_RejectedUnchanged", P(t)!Rejected_Unchanged(pre, I, c) /\ ~(~ev.ok /\ ev.obsBroken))
            \cup Cl("Act_C05_Lifecycle", P(t)!Lifecycle_OK(pre, I))
            \cup Cl("Act_C05_FillOrKill", P(t)!FillOrKill_OK(I, c))
            \cup Cl("Act_C04_FillOK", P(t)!Fills_OK(pre, I, c))
